@@ -189,7 +189,7 @@ MaxIdx(i) == IF DOMAIN i = {} THEN 0 ELSE LET S == {Len(i[u]) : u \in DOMAIN i} 
 
 EvOp(x, bg, kind, role, key, ok, nx, toks, tags, n, i2, e2) ==
   [ ev |-> "op", x |-> x, bg |-> bg, kind |-> kind, role |-> role, k |-> KeyNo(key), ok |-> ok, nx |-> nx,
-    fault |-> "", n |-> n, toks |-> toks, tags |-> tags, hop |-> 0, nkeys |-> NKeys(i2, e2), maxidx |-> MaxIdx(i2), t |-> now ]
+    fault |-> "", n |-> n, toks |-> toks, tags |-> tags, hop |-> 0, nkeys |-> NKeys(i2, e2), maxidx |-> MaxIdx(i2), orph |-> 0, t |-> now ]
 
 \* the gated operations (store operations and origin calls) in the order they happened, by exchange
 Gated(e) == e.ev \in {"op", "call"}
@@ -233,7 +233,7 @@ Faulty == (ex.nop + 1) \in ex.flt
 FaultEv(bg, kind, role, key) ==
   [ ev |-> "op", x |-> ex.x, bg |-> bg, kind |-> kind, role |-> role,
     k |-> KeyNo(key), ok |-> 0, nx |-> 0, fault |-> "err", n |-> -1, toks |-> <<>>, tags |-> <<>>, hop |-> 0,
-    nkeys |-> NKeys(idx, ent), maxidx |-> MaxIdx(idx), t |-> now ]
+    nkeys |-> NKeys(idx, ent), maxidx |-> MaxIdx(idx), orph |-> 0, t |-> now ]
 
 \* cache.GetRefs + VaryHeadersMatch
 GetRefs ==
